@@ -119,6 +119,8 @@ MK = [
     ("periodic", None, "GridConnectivity_t", [("GridConnectivityProperty", "GridConnectivityProperty_t"), ("Periodic", "Periodic_t")]),
     ("average", None, "GridConnectivity_t", [("GridConnectivityProperty", "GridConnectivityProperty_t"), ("AverageInterface", "AverageInterface_t")]),
 ]
+# labels of single children (CGNS_DELETE_CHILD arms): not modelled by Mirror.v, exercised on the implementation only
+CONTAINER_LABELS = {lab for m in MK for _, lab in m[3]} | {"ZoneBC_t"}
 TAG = {"CGNSBase_t": "B", "Zone_t": "Z", "ParticleZone_t": "PZ", "Family_t": "Fam", I: "Int", D: "De", U: "Ud", A: "Ar", F: "Afn",
        "GridCoordinates_t": "Gc", "Elements_t": "El", "FlowSolution_t": "Sol", "DiscreteData_t": "Dd", "RigidGridMotion_t": "Rm",
        "ArbitraryGridMotion_t": "Am", "ZoneGridConnectivity_t": "Zgc", "ZoneSubRegion_t": "Sr", "BC_t": "Bc", "BCDataSet_t": "Ds",
@@ -313,9 +315,11 @@ def expand(ops, backend, fpath, compress, full_every=None):
             near = [(path, pl, l) for l, _, _ in kinds_at(path, pl)]
         elif op[0] == "d":
             _, path, pl, name = op
+            nd = ref.nodes.get(path)
+            single = bool(nd and name in nd["names"] and nd["names"][name][0] in CONTAINER_LABELS)
             st = ref.delete(path, name)
             lines.append("d %s %s %s" % (path, pl, name))
-            exp.append(("d", st, k))
+            exp.append(("d", st, k, single))
             near = [(path, pl, l) for l, _, _ in kinds_at(path, pl)]
         elif op[0] == "mk":
             _, path, what, arg, chain = op
@@ -564,15 +568,33 @@ class Gen:
         else:
             self.emit(("d", path, pl, "NoSuch%d" % self.rng.randint(0, 9)))
 
+    def drop_container(self):
+        """delete a single child (CGNS_DELETE_CHILD arm) together with everything the history put below it"""
+        cands = [(p, nd["label"], n) for p, nd in self.ref.nodes.items() for n, (lab, _) in nd["names"].items()
+                 if lab in CONTAINER_LABELS and lab != "BaseIterativeData_t"]
+        if not cands:
+            return self.edit()
+        path, pl, name = self.rng.choice(cands)
+        self.emit(("d", path, pl, name))
+        self.mk_done = {m for m in self.mk_done if not (m[0] == path or m[0].startswith(join(path, name)))}
+        self.note(pl, self.ref_label_cache.get((path, name), "single child"), "delete-single")
+
     def history(self, nsteps, focus=None):
+        self.ref_label_cache = {}
         for _ in range(self.rng.randint(4, 10)):
             self.grow()
         for _ in range(nsteps):
+            for p, nd in self.ref.nodes.items():
+                for n, (lab, _) in nd["names"].items():
+                    if lab in CONTAINER_LABELS:
+                        self.ref_label_cache[(p, n)] = lab
             r = self.rng.random()
             if r < 0.22:
                 self.grow()
-            elif r < 0.96:
+            elif r < 0.93:
                 self.edit()
+            elif r < 0.96:
+                self.drop_container()
             else:
                 self.emit(("reopen", "m"))
         return self.ops
@@ -769,11 +791,16 @@ def probe_order(pl, label):
                   ("w", path, pl, label, "%sa" % t, 4 % b)], (path, pl, label)
 
 
-def model_lines(lines, out):
-    """the lines the engine answers (w / u / d / v / reopen) and the implementation's answers to them"""
+def model_lines(lines, out, exp=None):
+    """the lines the engine answers (w / u / d / v / reopen) and the implementation's answers to them; the deletion of a
+    single child (a container the model does not know) becomes `drop <path>`: the engine forgets the subtree"""
     ml, il = [], []
-    for l, o in zip(lines, out):
-        if l.split(" ", 1)[0] in ("w", "u", "d", "v", "reopen"):
+    for i, (l, o) in enumerate(zip(lines, out)):
+        t = l.split(" ")
+        if t[0] == "d" and exp is not None and len(exp[i]) > 3 and exp[i][3]:
+            ml.append("drop " + join(t[1], t[3]))
+            continue
+        if t[0] in ("w", "u", "d", "v", "reopen"):
             ml.append(l); il.append(o)
     return ml, il
 
@@ -878,9 +905,10 @@ def run(ck):
             os.unlink(fpath)
         return lines, exp, out, outcome
 
-    def correspond(ops, backend, compress, lines, out):
-        ml, il = model_lines(lines, out)
+    def correspond(ops, backend, compress, lines, out, exp=None):
+        ml, il = model_lines(lines, out, exp)
         mo = vlib.run_model("c04", "\n".join(ml) + "\n")
+        ml = [x for x in ml if not x.startswith("drop ")]
         if mo != il:
             d = vlib.first_divergence(mo, il)
             corr_broken.append({"history": [lines_of_op(o) for o in ops], "backend": backend, "compress": compress,
@@ -1067,7 +1095,7 @@ def run(ck):
                 fails = []
                 # the model must still print the same lines
         if not fails and outcome == "ok":
-            correspond(ops, backend, compress, lines, out)
+            correspond(ops, backend, compress, lines, out, exp)
         return fails
 
     # ---- (a) one focused history per sibling group
@@ -1112,6 +1140,7 @@ def run(ck):
     full = [k for k, v in covered.items() if {"create", "delete"} <= v and ("overwrite" in v or "rewrite" in v)]
     ck.extra["groups_with_create_overwrite_delete"] = len(full)
     ck.extra["labels_deleted"] = sorted({k.split("/")[1] for k, v in covered.items() if "delete" in v})
+    ck.extra["single_children_deleted"] = sorted({k for k, v in covered.items() if "delete-single" in v})
     ck.extra["parent_labels_covered"] = sorted({k.split("/")[0] for k in covered})
     ck.extra["avoided_triggers"] = dict(AVOID)
     ck.extra["input_distribution"] = dist
